@@ -243,4 +243,48 @@ theorem encode_quad_model (exc : PyErr) (st : EncState) (terms : List Term) :
     swap ((Gen.encode_quad (modelEnc TermEnc.spo) (modelEnc TermEnc.graph) exc terms).exec st) = encodeQuad exc st terms :=
   encode_quad_eq _ _ (modelEnc_like _) (modelEnc_like _) exc st terms
 
+/-! ## Namespace declarations -/
+
+theorem encode_iri_app (te : TermEnc) (iri : String)
+    (hp : te.prefixes.lookup.evicting = true → te.prefixes.lookup.data ≠ [])
+    (hn : te.names.lookup.evicting = true → te.names.lookup.data ≠ []) :
+    Gen.TermEncoder.encode_iri iri te
+      = (match (te.iriIndices iri).2 with
+         | .ok (rows, p, n) => .ok (rows, (p, n))
+         | .error e => .error e, (te.iriIndices iri).1) := by
+  unfold Gen.TermEncoder.encode_iri
+  have h := encode_iri_indices_eq te iri hp hn
+  simp only [M.exec, ExceptT.run, StateT.run] at h
+  rcases hi : te.iriIndices iri with ⟨te', r⟩
+  rw [hi] at h
+  have h' := swap_eq h
+  cases r with
+  | error e => py_simp [h', hi]
+  | ok v => obtain ⟨rows, p, n⟩ := v; py_simp [h', hi]
+
+/-- `encode_namespace_declaration`: the row bracket, the IRI through the tables, the declaration row last; when the IRI is
+    refused the row stays open (no `end_row()`), as in the model's `encodeNamespace`. -/
+theorem encode_namespace_declaration_eq (te : TermEnc) (name iri : String)
+    (hp : te.prefixes.lookup.evicting = true → te.prefixes.lookup.data ≠ [])
+    (hn : te.names.lookup.evicting = true → te.names.lookup.data ≠ []) :
+    swap ((Gen.encode_namespace_declaration name iri).exec te) = encodeNamespace te name iri := by
+  unfold Gen.encode_namespace_declaration encodeNamespace
+  have hb' := start_row_app te
+  cases hb : te.beginRow with
+  | error e => rw [hb] at hb'; py_simp [swap, hb', hb]
+  | ok te0 =>
+    rw [hb] at hb'
+    have hte0 : te0 = te.startRow := by
+      unfold TermEnc.beginRow at hb; split at hb <;> simp_all
+    have hp0 : te0.prefixes.lookup.evicting = true → te0.prefixes.lookup.data ≠ [] := by
+      subst hte0; simpa [TermEnc.startRow, LookupEnc.startRow] using hp
+    have hn0 : te0.names.lookup.evicting = true → te0.names.lookup.data ≠ [] := by
+      subst hte0; simpa [TermEnc.startRow, LookupEnc.startRow] using hn
+    have hi := encode_iri_app te0 iri hp0 hn0
+    rcases hii : te0.iriIndices iri with ⟨te', r⟩
+    rw [hii] at hi
+    cases r with
+    | error e => py_simp [swap, hb', hb, hi, hii]
+    | ok v => obtain ⟨rows, p, n⟩ := v; py_simp [swap, hb', hb, hi, hii, end_row_app]
+
 end Jelly.Translated
